@@ -247,6 +247,25 @@ class C16(Prop):
                 want = ({low(n): v for n, v in rm} == {low(n): v for n, v in ref_merged(refs[j])})
                 if e != want or (h != g2) == e:
                     probs.append((f"eq {i} {j}", e, want))
+            # equality with the accepted NON-HTTPHeaderDict source types: the per-line list, a dict of the merged
+            # values, a generator of lines and a keys()/__getitem__ object describe the same multimap as `h`
+            srcs = {"lines": list(f), "tuple": tuple(f), "merged-dict": dict(rm), "duck": Duck(dict(rm))}
+            case_dup = {}
+            for n, x in f:
+                case_dup.setdefault(n, x)
+            if len({low(n) for n in case_dup}) == len(case_dup) == len({low(n) for n, _ in f}) and len(f) == len(case_dup):
+                srcs["exact-dict"] = dict(f)
+            for nm, src in srcs.items():
+                try:
+                    e, ne = (h == src), (h != src)
+                except Exception as ex:          # noqa: BLE001
+                    probs.append((f"eqsrc {nm}", type(ex).__name__, True))
+                    continue
+                if e is not True or ne is not False:
+                    probs.append((f"eqsrc {nm}", (e, ne), (True, False)))
+            other = list(f) + [("X-Not-There", "1")]
+            if (h == other) is not False or (h != other) is not True:
+                probs.append(("eqsrc differing-lines", (h == other), False))
             for what, got, want in probs:
                 res.failures.append(Failure(signature="multimap-mismatch:" + what.split(" ")[0],
                                             what=f"HTTPHeaderDict {what}: got {got!r}, reference multimap says {want!r}",
